@@ -401,7 +401,8 @@ def k_api(run, case):
 
 
 # ------------------------------------------------------------------ L3 helpers (shared with C02/C12)
-def make_file_pair(rng, fmt, workdir, n=None, pos_cls=None, still_start=False, stamp_cls=None, small_est=False):
+def make_file_pair(rng, fmt, workdir, n=None, pos_cls=None, still_start=False, stamp_cls=None, small_est=False,
+                   header_comment=False):
     """write a reference/estimate file pair; returns dict with paths and ground-truth arrays"""
     n = n or int(rng.integers(6, 70))
     ref = gen.traj_arrays(rng, n, pos_cls=pos_cls or ["walk", "utm", "circle", "stationary_mix", "tiny"][rng.integers(5)],
@@ -492,7 +493,7 @@ def make_file_pair(rng, fmt, workdir, n=None, pos_cls=None, still_start=False, s
     else:
         open(estp, "w").write(rm.write_tum_text(est["t"], est["p"], gen.quats_of(est["R"])))
     for pth in (refp, estp):
-        if fmt != "kitti" and not pth.endswith(".csv") and rng.random() < .15:
+        if fmt != "kitti" and not pth.endswith(".csv") and (rng.random() < .15 or header_comment):
             # TUM files with a header comment (free text: commas, colons, quotes)
             txt = open(pth).read()
             open(pth, "w").write(["# run 3, exported by my_slam\n", "# timestamp tx ty tz qx qy qz qw\n",
@@ -906,7 +907,8 @@ def ape_cli(run, case, rng, work):
         fmt = fp["fmt"]
     else:
         fp = make_file_pair(rng, fmt, work, still_start=bool(case.get("still_start")),
-                            stamp_cls="small" if "tmax_boundary" in case.get("force_options", ()) else None)
+                            stamp_cls="small" if "tmax_boundary" in case.get("force_options", ()) else None,
+                            header_comment=bool(case.get("header_comment")))
     argv_o, o = draw_common_options(rng, fp, force=case.get("force_options", ()))
     rel_cli = list(CLI_REL)[rng.integers(len(CLI_REL))]
     relation = CLI_REL[rel_cli]
